@@ -7,7 +7,7 @@ BUILT = {
  "C01": dict(cat="exploration", tech="deterministic simulation: seeded workload + RNG fault injection (FaultRng), byte-budget bounded liveness, real Ristretto and free-module group",
    text="Seeded simulation of prover nodes handed healthy and failing external RNG streams (all-zero, all-ones, constant, short-period, counter, stuck-after-n, replayed), across the configuration lattice (bits 1..64, aggregation 1..32, capacity > m, extension degree 1..6, boundary values, promises, seeds), each proof verified in all three modes alone and inside a batch, after a byte and a serde (bincode) round trip, and (one run in eight) after a failed proving attempt on the same transcript object; boundary inputs include identity commitments, repeated openings, special blinding factors and seeds, promises adding up to 2^64. Completeness is an identity, so sampling diverse configurations under every RNG failure mode with a byte budget for prover termination is the level that fits: it decides the RNG-quantified part of the statement, which unit tests with one healthy RNG cannot.",
    note="Trusted: FreePoint is a faithful free-module stand-in for the group (every class of run also executes on real Ristretto); sampling, not proof; zero challenge (2^-252) ignored.", ref="5/C01"),
- "C02": dict(cat="exploration", tech="deterministic simulation: hostile channel + adversarial proof crafting over a simulator-owned free-module group; Fiat-Shamir challenges tapped at the merlin seam; independent paper-form reference verifier as oracle on every verification; tuned cancelling pairs resubmitted after accepted batches",
+ "C02": dict(cat="exploration", tech="deterministic simulation: hostile channel + adversarial proof crafting over a simulator-owned free-module group; Fiat-Shamir challenges tapped at the merlin seam; independent paper-form reference verifier as oracle on every verification; tuned cancelling pairs resubmitted after accepted batches; simulator-owned dishonest prover (protocol mirrored through the public API) delivering surplus-round forgeries",
    text="Every verification a simulated verifier performs (honest, channel-faulted and adversarially crafted proofs, singly and in batches) is compared with an independent unoptimised evaluation of the published relation at the challenges the library actually drew: over the free module the verifier's residual must equal w * reference residual coefficient by coefficient (so a generator or proof element weighted differently shows up on its own coordinate), on Ristretto the verdicts must agree, shape defects must be refused. This decides 'the implemented linear combination is the published one' at sampled challenge points; it has no interleaving dimension and does not prove knowledge soundness of the protocol.",
    note="Trusted: refmodel.rs (harness's reading of the paper / RFC-0181), FreePoint as a faithful group, tapped challenges (transcript layout is C04), vector generators taken from the parameters (C11).", ref="5/C02"),
  "C04": dict(cat="fault_enumeration", tech="deterministic simulation: single-datum message faults enumerated over every transcript input position; transcript event log recorded at the merlin seam; oracle over the two recorded challenge histories",
